@@ -43,7 +43,7 @@ theorem C33_none_iff : normalizeCfg keep trail U input limit = none ↔ cleanedT
     rw [if_neg (by simpa using hne)] at h
     exact fallback_ne_none _ _ _ h
   · intro h
-    simp [h]
+    rw [if_pos (by rw [h]; rfl)]
 
 /-- **ends on a grapheme boundary**: the output is the concatenation of the first `k ≥ 1` grapheme
     clusters of the cleaned text, hence a prefix of it, and all of it when not truncated. -/
